@@ -149,6 +149,10 @@ def run_unit(uname, tier, prop):
         if oid is None:
             oid = "%s.%s.%s" % (uname, fn, short_msg(d.message))
             props = prim.props if prim is not None else None
+        lem = getattr(mod, "LEMMAS", {})
+        if fn in lem and (prim is None or prim.kind in ("spec", "prelude")):
+            oid = "%s.%s.lemma" % (uname, fn)
+            props = lem[fn]
         if props is None:
             props = uf.fn_props.get(fn, set())
         entry = {"obligation": oid, "fn": fn, "message": d.message, "props": sorted(props or []),
